@@ -221,6 +221,13 @@ theorem strtod_model_ties_to_even (num den : Nat) (hd : 0 < den)
     (Strtod.roundCore num den).1 % 2 = 0 :=
   Strtod.roundCore_tie_even num den hd htie
 
+/-- the `double → float` step of the REAL reader rounds the significand to the nearest
+representable one, ties to even. -/
+theorem float_conversion_nearest (q e : Nat) :
+    2 * (q - Strtod.roundHalfEven q (2 ^ Strtod.f32Shift e) * 2 ^ Strtod.f32Shift e) ≤ 2 ^ Strtod.f32Shift e ∧
+      2 * (Strtod.roundHalfEven q (2 ^ Strtod.f32Shift e) * 2 ^ Strtod.f32Shift e - q) ≤ 2 ^ Strtod.f32Shift e :=
+  Strtod.float32_significand_nearest q e
+
 example : Strtod.roundCore 1 10 = (7205759403792794, 1018) := by decide +kernel   -- 0.1 = 0x3FB999999999999A
 
 /-- What follows an array inside a file meets the hypothesis `ht` of the two theorems above:
